@@ -156,17 +156,13 @@ class Oracle:
     def rng(self, D, a, b, got):
         q = "rng %s %d %d" % (doc_str(D.doc), a, b)
         if got[0] == TRAP:
-            if a == USIZE_MAX and self.known("span-start-usize-max"):
-                return None
-            return self.fail(D, q, "span_to_range panicked", None, got)
+            return self.fail(D, q, "span_to_range panicked", "a range with start <= end", got)
         s, e = (got[0], got[1]), (got[2], got[3])
         if not (s <= e and D.valid(s) and D.valid(e)):
-            if a == USIZE_MAX and self.known("span-start-usize-max"):
-                return None
             return self.fail(D, q, "range not well-formed (start <= end, both inside the document)", "start <= end inside", got)
         if s != D.pos(a):
             return self.fail(D, q, "range start is not the position of the span start", D.pos(a), s)
-        if a < USIZE_MAX and a < b and e != D.pos(b):
+        if a < b and e != D.pos(b):
             return self.fail(D, q, "range end is not the position of the span end", D.pos(b), e)
 
     def car(self, D, a, b, got):
